@@ -362,8 +362,14 @@ inline bool name_selected(const std::string& only, const std::string& skipPrefix
 	std::string n = name;
 	if (!skipPrefix.empty() && n.rfind(skipPrefix, 0) == 0) return false;
 	if (only.empty()) return true;
-	if (only.back() == '*') return n.rfind(only.substr(0, only.size() - 1), 0) == 0;
-	return n == only;
+	size_t p = 0;   // comma-separated list of names; a trailing '*' makes a prefix pattern
+	while (p <= only.size()) {
+		size_t q = only.find(',', p); if (q == std::string::npos) q = only.size();
+		const std::string pat = only.substr(p, q - p);
+		if (!pat.empty() && (pat.back() == '*' ? n.rfind(pat.substr(0, pat.size() - 1), 0) == 0 : n == pat)) return true;
+		p = q + 1;
+	}
+	return false;
 }
 
 inline int engine_main(int argc, char** argv, const char* unitName) {
